@@ -3,7 +3,7 @@ import glob, os
 from ..common import CORPUS
 
 NTYPES = 46
-CANCELLING_FILTERS = False      # switched on once the model has them (Reg.filtCancels)
+CANCELLING_FILTERS = True       # Reg.filtCancels in the model (M1)
 
 def fnv1a(s):
     h = 2166136261
